@@ -36,6 +36,23 @@ _TOUCHES = ("push", "push_str", "extend_from_slice", "extend", "insert", "insert
             "make_ascii_lowercase", "replace_range", "dedup", "rotate_left", "rotate_right")
 
 
+_COPY_HELPERS = {}      # path of a buffer-copying helper of peer.rs -> the (1-based) parameter whose bytes its result holds
+
+
+def _copy_helpers(facts):
+    """helpers of peer.rs returning a fresh Vec<u8>/String whose content is exactly one of their slice parameters"""
+    _COPY_HELPERS.clear()
+    for p, kb in facts.bodies.items():
+        if not p.startswith("peer::") or "{closure" in p or p.count("::") != 1 or not kb.argc:
+            continue
+        if kb.local_ty(0) not in ("std::vec::Vec<u8>", "std::string::String"):
+            continue
+        ks = Sym(kb)
+        src = _content_source(kb, ks, ks.local(0))
+        if src is not None and src[0] == "arg" and kb.local_ty(src[1]) in ("&[u8]", "&str"):
+            _COPY_HELPERS[p] = src[1]
+
+
 def _content_source(b, sym, e, depth=0, use_pt=None):
     """the expression whose bytes a freshly built Vec/String holds, or None: an empty buffer filled by exactly one
     push_str/extend_from_slice on every path and touched by nothing else, a copy (to_vec, clone, ..) or clone_with_prefix_room"""
@@ -43,8 +60,9 @@ def _content_source(b, sym, e, depth=0, use_pt=None):
         return None
     if e[0] == "call":
         nm = e[1].rsplit("::", 1)[-1]
-        if nm == "clone_with_prefix_room" and e[2]:
-            return _content_source(b, sym, e[2][0], depth + 1, use_pt)
+        if e[1] in _COPY_HELPERS and len(e[2]) >= _COPY_HELPERS[e[1]]:
+            # a helper of this crate that returns a fresh buffer holding one of its parameters' bytes (judged on its own body)
+            return _content_source(b, sym, e[2][_COPY_HELPERS[e[1]] - 1], depth + 1, use_pt)
         if nm in _COPIES and len(e[2]) == 1:
             return _content_source(b, sym, e[2][0], depth + 1, use_pt)
         if nm in _BUILD_EMPTY and len(e) > 3:
@@ -169,6 +187,7 @@ def _body_content_rule(facts, R, wpath, c, cv, kind):
 def run(facts, R):
     for m in MAPS:
         facts.require_field(INNER, m)
+    _copy_helpers(facts)
     # ---------------- one-lock-per-op ------------------------------------------------------------------
     lockers = [(b, i, t) for b in facts.bodies.values() for i, t in b.calls()
                if t["callee"]["name"] in ("lock", "try_lock") and "Mutex" in t["callee"]["path"] and "RegistryInner" in (" ".join(t.get("arg_tys", [])) + str(t["callee"].get("targs")))]
@@ -457,7 +476,7 @@ def run(facts, R):
         kb = facts.body("peer::clone_with_prefix_room")
         ks = Sym(kb)
         ksrc = _content_source(kb, ks, ks.local(0))
-        R.check(ksrc is not None and ksrc[0] == "arg" and ksrc[1] == 1, "broadcast-loop", kb.path, "copy holds exactly the source bytes",
+        R.check("peer::clone_with_prefix_room" in _COPY_HELPERS, "broadcast-loop", kb.path, "copy holds exactly the source bytes",
                 "clone_with_prefix_room returns %s, whose content is %s" % (render_n(ks.local(0))[:100], render_n(ksrc)[:80] if ksrc is not None else None), kb.span,
                 "empty buffer + one extend_from_slice(src)")
     # body closures build the body of the advertised kind from the given bytes
